@@ -51,10 +51,20 @@ def fnnls_cholesky(
     s_chol = np.zeros(n)
 
     if P_initial.shape[0] != 0:
-        P_number = np.arange(len(P), dtype="int")
-        P_inorder = P_number[P_initial]
-        s_chol[P] = lstsq((ZTZ)[P][:, P], (ZTx)[P])
-        d = s_chol.clip(min=0)
+        # Shrink the guessed passive set until its least-squares solution is strictly positive, so that the
+        # main loop starts from a feasible point that is optimal on its own support, and compute the gradient
+        # w at that point (it was previously left at its value for d = 0).
+        while np.any(P):
+            s_chol[:] = 0.0
+            s_chol[P] = lstsq((ZTZ)[P][:, P], (ZTx)[P])
+            if np.min(s_chol[P]) > tolerance:
+                break
+            P[s_chol <= tolerance] = False
+        if not np.any(P):
+            s_chol[:] = 0.0
+        P_inorder = np.arange(n, dtype="int")[P]
+        d = s_chol.copy()
+        w = ZTx - (ZTZ) @ d
     else:
         P_inorder = np.array([], dtype="int")
 
